@@ -211,7 +211,7 @@ def _is_blank(elem):
     if "array" in elem:
         return not elem["array"]
     if "joined" in elem:
-        return elem["joined"][0] == "" and not elem["joined"][1]
+        return elem["joined"][0] == ""
     return False
 
 
